@@ -74,6 +74,19 @@ def automorphism (σ : α → α) (ks ct : α × α) : α × α := (σ (ks.1 + c
     Q rows) and added to the first component before `σ`; the result is modulo `QP`. -/
 def automorphismHoistedLazy (σ : α → α) (x : α × α) (pc0 : α) : α × α := (σ (x.1 + pc0), σ x.2)
 
+/-- `ApplyEvaluationKey` to a LARGER ring degree: the input (small ring `β`) is first mapped into the
+    large ring by `ι : Y ↦ X^{N/n}` (`SwitchCiphertextRingDegree{,NTT}`), then key-switched there with a
+    key from `ι(s_small)` to `s_large`; `ksOf c1` is the gadget product of the mapped `c1`. -/
+def applyEvaluationKeyUp {β : Type} (ι : β → α) (ksOf : α → α × α) (ct : β × β) : α × α :=
+  let c : α × α := (ι ct.1, ι ct.2)
+  applyEvaluationKey (ksOf c.2) c
+
+/-- `ApplyEvaluationKey` to a SMALLER ring degree: key switch in the large ring (key from `s_large` to
+    `ι(s_small)`), then keep the coefficients of `X^{k·N/n}` (`ρ`). -/
+def applyEvaluationKeyDown {β : Type} (ρ : α → β) (ks ct : α × α) : β × β :=
+  let r := applyEvaluationKey ks ct
+  (ρ r.1, ρ r.2)
+
 end generic
 
 /-! ## Executable layer on `RPoly` -/
@@ -226,5 +239,19 @@ def scaleByP (qsP : List Nat) (c0 : RPoly) : RPoly :=
   let n := (c0.c.headD []).length
   let s := c0.scale (prod qsP)
   { qs := s.qs ++ qsP, c := s.c ++ qsP.map fun _ => List.replicate n 0 }
+
+/-- `Y ↦ X^{gap}` on one row: coefficient `k` goes to position `k·gap`, zeros elsewhere -/
+def rowEmbed (gap : Nat) (x : List Nat) : List Nat :=
+  x.flatMap fun v => v :: List.replicate (gap - 1) 0
+
+/-- `SwitchCiphertextRingDegree` small → large -/
+def embedR (gap : Nat) (a : RPoly) : RPoly := { qs := a.qs, c := a.c.map (rowEmbed gap) }
+
+/-- keep the coefficients at the multiples of `gap` -/
+def rowProject (gap : Nat) (x : List Nat) : List Nat :=
+  (List.range (x.length / gap)).map fun k => x.getD (k * gap) 0
+
+/-- `SwitchCiphertextRingDegree` large → small -/
+def projectR (gap : Nat) (a : RPoly) : RPoly := { qs := a.qs, c := a.c.map (rowProject gap) }
 
 end Lattigo.KS
